@@ -77,3 +77,43 @@ Fixpoint contract_ok (l : list participant) : bool :=
 
 (* the projection that is canonical (independent of sort stability) *)
 Definition proj (l : list participant) : list pclass := map pcls l.
+
+(* --- the same sort over any element type ------------------------------------------------
+   SortOrderedComponents is generic (T any): configure.go applies it to loaders, app.go to runners.
+   [g_sort cls] is the function above with the class read through [cls]; on participants it IS
+   [sort_participants] (Proofs/SorterProofs.v: sort_participants_generic).  sort.Slice on at most
+   12 elements is a plain insertion sort with a strict comparison, i.e. stable: elements of equal
+   class and Order keep the order in which they were registered — [g_insert] places the new
+   element before the first one whose Order is not smaller, exactly as [insert_by]. *)
+Section GenericSort.
+  Context {A : Type} (cls : A -> pclass).
+
+  Definition g_order (a : A) : Z := match cls a with Prio o => o | Ord o => o | Unord => 0 end.
+  Definition g_is_prio (a : A) : bool := match cls a with Prio _ => true | _ => false end.
+  Definition g_is_ord (a : A) : bool := match cls a with Ord _ => true | _ => false end.
+  Definition g_is_unord (a : A) : bool := match cls a with Unord => true | _ => false end.
+
+  Fixpoint g_insert (a : A) (l : list A) : list A :=
+    match l with
+    | [] => [a]
+    | q :: r => if g_order q <? g_order a then q :: g_insert a r else a :: q :: r
+    end.
+
+  Fixpoint g_isort (l : list A) : list A :=
+    match l with
+    | [] => []
+    | a :: r => g_insert a (g_isort r)
+    end.
+
+  Definition g_sort (l : list A) : list A :=
+    g_isort (filter g_is_prio l) ++ g_isort (filter g_is_ord l) ++ filter g_is_unord l.
+End GenericSort.
+
+(* same class and same Order *)
+Definition same_class (a b : pclass) : bool :=
+  match a, b with
+  | Prio x, Prio y => x =? y
+  | Ord x, Ord y => x =? y
+  | Unord, Unord => true
+  | _, _ => false
+  end.
